@@ -327,6 +327,8 @@ class Interp:
             y = y.strip()
         x = self._get(name, track)
         tq = [q for q in quals if q in table.QUALS]
+        if "asbool" in tq and isinstance(y, float) and y != y:
+            raise Undefined("asbool of nan")
         if tq and not self.AND:
             raise Undefined("qualified assignment in OR mode")
         rest = True
